@@ -28,7 +28,7 @@ pub struct C14;
 type Fq = ark::Fq;
 
 thread_local! {
-    static BIT_FAULTS: RefCell<Vec<(usize, bool, bool)>> = RefCell::new(Vec::new());
+    static BIT_FAULTS: RefCell<Vec<(usize, bool, Option<String>, Option<String>)>> = RefCell::new(Vec::new());
 }
 
 pub const KNOWN_DEN0: &str = "C14|isqrt-site|den=0|hint=(true,y),y^2=1";
@@ -279,7 +279,7 @@ fn force_values(m: &Machine) -> Option<String> {
 /// w + q < 2^253, substitute the bits of w + q (the non-canonical decomposition of the same
 /// field element; its parity is flipped because q is odd) and ask whether the system is still
 /// satisfied. With the range check of `to_bits_le` in place it never is.
-fn bit_decomposition_faults(m: &Machine) -> Vec<(usize, bool)> {
+fn bit_decomposition_faults(m: &Machine) -> Vec<(usize, bool, Option<String>)> {
     let n = { m.cs.borrow().map(|c| c.witness_assignment.len()).unwrap_or(0) };
     let vals: Vec<Fq> = m.cs.borrow().map(|c| c.witness_assignment.clone()).unwrap_or_default();
     let is_bit = |v: &Fq| *v == Fq::ZERO || *v == Fq::ONE;
@@ -310,13 +310,17 @@ fn bit_decomposition_faults(m: &Machine) -> Vec<(usize, bool)> {
                 }
             }
             let sat = m.satisfied();
+            // Being satisfied is not yet a violation: the run of booleans may be free witnesses
+            // (e.g. the bits of a scalar multiplying the identity). What counts is whether an
+            // output now differs from the native result (or a natively rejected input is accepted).
+            let wrong = if sat { force_values(m) } else { None };
             {
                 let mut c = m.cs.borrow_mut().unwrap();
                 for k in 0..253 {
                     c.witness_assignment[i + k] = vals[i + k];
                 }
             }
-            out.push((i, sat));
+            out.push((i, sat, wrong));
         }
         i += 253;
     }
@@ -347,25 +351,33 @@ fn hint_case(prog: &[GOp], substs: &[Subst], ctx: &mut Ctx) -> Result<(), Failur
             let sat = m.satisfied();
             // bit-decomposition hints (only on top of otherwise honest hints)
             if s == &Subst::honest() {
-                for (at, sat_alt) in bit_decomposition_faults(&m) {
-                    BIT_FAULTS.with(|b| b.borrow_mut().push((at, sat_alt, m.expect_unsat.is_some() || !sat)));
+                for (at, sat_alt, wrong_alt) in bit_decomposition_faults(&m) {
+                    BIT_FAULTS.with(|b| b.borrow_mut().push((at, sat_alt, m.expect_unsat.clone(), wrong_alt)));
                 }
             }
             Ok((sat, wrong))
         }));
         uninstall();
         let log = log.borrow().clone();
-        let bit_faults: Vec<(usize, bool, bool)> = BIT_FAULTS.with(|b| std::mem::take(&mut *b.borrow_mut()));
-        for (at, sat_alt, was_rejected) in bit_faults {
+        let bit_faults: Vec<(usize, bool, Option<String>, Option<String>)> = BIT_FAULTS.with(|b| std::mem::take(&mut *b.borrow_mut()));
+        for (at, sat_alt, rejected, wrong_alt) in bit_faults {
             ctx.sub_eval();
             ctx.class(&format!("bit-decomposition-fault|{}", if sat_alt { "sat" } else { "unsat" }));
-            // the non-canonical decomposition flips the sign test: accepting it means a sign-dependent
-            // gadget output can be forged (and, where the honest run was rejected, that an invalid input is accepted)
+            // the non-canonical decomposition flips the sign test: a satisfied system whose outputs
+            // differ from native (or that accepts a natively rejected input) means the test can be forged
             if sat_alt {
-                ctx.report(
-                    format!("C14|{what_short}|non-canonical-bit-decomposition-accepted"),
-                    format!("{what}: replacing the 253 bit witnesses at index {at} by the bits of value + q keeps the system satisfied{}", if was_rejected { " although the honest run was rejected (native operation fails)" } else { "" }),
-                )?;
+                let why = match (&rejected, &wrong_alt) {
+                    (Some(r), _) => Some(format!("the native operation rejects the input ({r})")),
+                    (None, Some(w)) => Some(w.clone()),
+                    (None, None) => None,
+                };
+                match why {
+                    Some(why) => ctx.report(
+                        format!("C14|{what_short}|non-canonical-bit-decomposition-accepted"),
+                        format!("{what}: replacing the 253 bit witnesses at index {at} by the bits of value + q keeps the system satisfied although {why}"),
+                    )?,
+                    None => ctx.class("bit-decomposition-fault|sat-but-outputs-unchanged(free witness bits)"),
+                }
             }
         }
         match r {
